@@ -60,7 +60,7 @@ Definition table_ColumnWriter : list entry :=
    ("originalType", Config, "construction");
    ("columnIndex", ResetC, "ColumnIndexer.Reset (model: a_pageidx)");
    ("columnBuffer", ResetC, "reset: originalColumnBuffer restored and Reset (model: a_buffer)");
-   ("plainColumnBuffer", Scratch, "allocated lazily by the first fallback, kept; it is Reset when it is current, and ColumnWriter.Flush resets it after each page");
+   ("plainColumnBuffer", ResetC, "allocated lazily by the first fallback and kept; reset empties it (since 2943698: rows buffered after a fallback in an abandoned file came back with the next fallback; model: c_plain, refutation C17_pinned_plain_buffer_refuted)");
    ("originalColumnBuffer", Carried, "the lazily created dictionary-indexed buffer, recorded once; content cleared by reset through columnBuffer");
    ("columnFilter", Config, "config.BloomFilters");
    ("encoding", ResetC, "PLAIN after a fallback; reset restores originalEncoding when hasSwitchedToPlain (model: c_enc)");
@@ -206,7 +206,7 @@ Definition model_components : list (string * list (string * string)) :=
    ("bloom events (inline; deferred filters are the same bytes later)", [("writer", "deferredBloomFilters"); ("writer", "deferredBloomFilterSize")]);
    ("a_pages", [("ColumnWriter", "pageBuffer"); ("ColumnWriter", "numPages"); ("ColumnWriter", "copied")]);
    ("c_enc / c_switched", [("ColumnWriter", "encoding"); ("ColumnWriter", "columnType"); ("ColumnWriter", "hasSwitchedToPlain")]);
-   ("a_buffer", [("ColumnWriter", "columnBuffer")]);
+   ("a_buffer / c_plain", [("ColumnWriter", "columnBuffer"); ("ColumnWriter", "plainColumnBuffer")]);
    ("a_dict", [("ColumnWriter", "dictionary")]);
    ("a_pageidx", [("ColumnWriter", "columnIndex"); ("ColumnWriter", "pageRepetitionLevelHistograms"); ("ColumnWriter", "pageDefinitionLevelHistograms")]);
    ("a_locs", [("ColumnWriter", "offsetIndex"); ("ConcurrentRowGroupWriter", "offsetIndex")]);
